@@ -1,5 +1,6 @@
 import Siot.Lemmas.Export
 import Siot.Lemmas.ExportStore
+import Siot.Lemmas.ExportForest
 import Siot.Gen.Export
 /-
 C15 — Export followed by import reproduces the tree.
@@ -251,6 +252,55 @@ theorem c15_reexport (isDel : Nat → Bool) (st st' : St) (f : Flat)
     simp only [List.mem_filter] at hc hy
     simp only [shape, shapeOf, Prod.mk.injEq] at hs
     exact ih (d + 1) y hy.1 c hc.1 hs.2.1
+
+/-- **C15 (an exported file is the traversal of its own tree).** On every store whose non-deleted edges form a
+forest — no node below two non-deleted edges (no mirrors) and no cycle — the file `exportNodesHelper` writes from any
+non-deleted edge, at any depth budget, is exactly the pre-order list its own parent pointers describe: walking the file
+from its first node by `parent` fields (`rebuild`) gives the file back. (This is the fixed point `c15_reexport` refers
+to; the driver still evaluates it on every exported file, mirrors included.) -/
+theorem c15_export_is_own_tree (isDel : Nat → Bool) (st : St) (hf : Forest (Auth.live isDel st)) (k d : Nat) (e : Edge)
+    (he : e ∈ Auth.live isDel st) :
+    rebuild (exportFrom isDel st k d e) k d (recOf st e) = exportFrom isDel st k d e :=
+  export_self_rebuilding isDel st hf k d e he
+
+/-- **C15 (export, import with the ids kept, export again: the same file).** Let `f` be the file exported from a
+non-deleted edge of a forest store `st0`, with the top node re-parented to the import target and its description marked
+as `ImportNodes` does (`prepTop`; the target is not a node of the file). If the import leaves the store as
+`c15_import_stored` describes (hypotheses of `c15_reexport`), then exporting the imported top node again returns `f`
+itself — every node, in the same order and depth, with the same points and edge points. -/
+theorem c15_export_import_export (isDel : Nat → Bool) (st0 st st' : St) (K : Nat) (e0 : Edge) (target : Bytes)
+    (hf : Forest (Auth.live isDel st0)) (he0 : e0 ∈ Auth.live isDel st0)
+    (htgt : target ∉ ids (exportFrom isDel st0 (K + 1) 0 e0))
+    (f : Flat) (hfd : f = prepTop target (exportFrom isDel st0 (K + 1) 0 e0))
+    (hsh : st'.edges.map shape = st.edges.map shape ++ f.map shapeOf)
+    (hrec : ∀ x ∈ f, ∀ e ∈ st'.edges, e.down = x.2.id → recOf st' e = x.2 ∧ edgeTomb st' e = tombX x.2.epts)
+    (hfresh : ∀ x ∈ f, ∀ e ∈ st.edges, e.up ≠ x.2.id)
+    (hlive : ∀ x ∈ f, isDel (tombX x.2.epts) = false) :
+    ∀ e ∈ st'.edges, e.down = e0.down → exportFrom isDel st' (K + 1) 0 e = f := by
+  intro e he hd
+  have hS : exportFrom isDel st0 (K + 1) 0 e0 = (0, recOf st0 e0) ::
+      ((Auth.live isDel st0).filter (fun c => c.up == e0.down)).flatMap (fun c => exportFrom isDel st0 K 1 c) := rfl
+  generalize hrest : ((Auth.live isDel st0).filter (fun c => c.up == e0.down)).flatMap (fun c => exportFrom isDel st0 K 1 c) = rest at hS
+  have hown := export_self_rebuilding isDel st0 hf (K + 1) 0 e0 he0
+  have hup := export_up_outside isDel st0 hf (K + 1) 0 e0 he0
+  rw [hS] at hown hup htgt hfd
+  obtain ⟨n', hpt, hid, hpar⟩ : ∃ n', prepTop target ((0, recOf st0 e0) :: rest) = (0, n') :: rest ∧ n'.id = (recOf st0 e0).id ∧ n'.parent = target :=
+    ⟨_, rfl, rfl, rfl⟩
+  rw [hpt] at hfd
+  have hx : (0, n') ∈ f := by rw [hfd]; exact List.mem_cons_self ..
+  have h1 := c15_reexport isDel st st' f hsh hrec hfresh hlive (K + 1) 0 (0, n') hx e he (by rw [hd, hid]; rfl)
+  rw [h1, hfd]
+  exact rebuild_retop 0 (recOf st0 e0) n' rest hid hup (by rw [hpar]; exact htgt) (K + 1) hown
+
+/-- non-vacuity of the forest hypothesis: a root with two children, one of them with a child of its own -/
+example :
+    let L : List Edge := [⟨rootS, [82], [100], 0⟩, ⟨[82], [97], [100], 0⟩, ⟨[82], [98], [100], 0⟩, ⟨[97], [99], [100], 0⟩]
+    Forest L := by
+  intro L
+  refine ⟨⟨fun b => if b = rootS then 0 else if b = [82] then 1 else if b = [99] then 3 else 2, ?_⟩, by decide⟩
+  intro c hc
+  simp only [L, List.mem_cons, List.not_mem_nil, or_false] at hc
+  rcases hc with rfl | rfl | rfl | rfl <;> decide
 
 /-- non-vacuity: a file with two levels and siblings is its own traversal -/
 example :
